@@ -397,6 +397,9 @@ def generate(rng, tier):
         ta = [g8(rng), g8(rng), rng.choice([1.0, 2.0, 0.5, -1.0, 0.25, 4.0, -0.5, g8(rng)])]
         tb = [g8(rng), g8(rng), rng.choice([1.0, 2.0, 0.5, -1.0, 0.25, 4.0, g8(rng)])]
         yield ts_bin(ta, tb, [g8(rng), g8(rng)])
+        # compound assignment must equal the binary operator (exact on the grid)
+        yield exact_line(f'assign.maps {H(*ga)} {H(*[g8(rng) for _ in range(6)])} {H(*ta)} {H(*tb)} {H(g8(rng), g8(rng))}', 'assign-ops')
+        yield exact_line(f'assign.vecs {H(*[g8(rng) for _ in range(6)])} {H(rng.choice([0.5, 2.0, -4.0, 0.25, 8.0]))} {H(*[g8(rng) for _ in range(4)])}', 'assign-ops')
         yield ts_scalar(rng.choice([0.5, 2.0, -1.0, 3.0, 0.25, g8(rng)]), ta)
         tpow = [g8(rng), g8(rng), rng.choice([1.0, 2.0, 0.5, -1.0, 0.25, 4.0, -2.0])]
         yield exact_line(f'ts.shapes {H(*tpow)} {H(*[g8(rng) for _ in range(4 + 4 + 6 + 8)])}', 'grid')
